@@ -599,6 +599,56 @@ def r06i(run, A: FuncInfo, B: FuncInfo):
     run.floor("R06i", "extra-key passes", total, 2)
 
 
+def r06j(run, A: FuncInfo, B: FuncInfo):
+    """which of several spellings of one field wins must not depend on the strategy:
+    (i) the per-key strategy never overwrites a field that already took a value from an earlier key (the per-field
+        strategy takes the first spelling in the field's alias order and stops);
+    (ii) the case-folding pre-pass of the per-field strategy does not silently overwrite a key that folds onto an
+        existing one (the per-key strategy sees both and reports the conflict)"""
+    # (i) find the per-key strategy: its outer loop ranges over the input's items
+    for f in (A, B):
+        fa = analysis(f)
+        per_key = [n for n in fa.cfg.nodes if n.kind == "iter" and unparse(n.ast) == "data.items()"
+                   and not any(m.kind == "branch" and m.is_for for m in fa.cfg.dominators()[n] if m.pred and m.pred[0][0] is not n)]
+        pv = [(n, c) for n, c in fa.all_calls() if call_attr(c) == "parse_value"]
+        if per_key and pv and any(fa.cfg.dominates(per_key[0], n) for n, c in pv):
+            # record of what a field already took: subscript-stored container keyed like the result
+            marks = {}
+            for n in fa.cfg.nodes:
+                if n.kind == "stmt" and isinstance(n.ast, ast.Assign) and isinstance(n.ast.targets[0], ast.Subscript) \
+                        and isinstance(n.ast.targets[0].value, ast.Name) and value_state(fa, n, n.ast.value) == {"RAW"}:
+                    marks[n.ast.targets[0].value.id] = unparse(n.ast.targets[0].slice)
+            for n, c in pv:
+                ok = any(isinstance(a, ast.Compare) and isinstance(a.ops[0], ast.In) and not p
+                         and isinstance(a.comparators[0], ast.Name) and a.comparators[0].id in marks
+                         and unparse(a.left) == marks[a.comparators[0].id] for a, p in fa.facts.atoms_at(n))
+                run.check("R06j", f, "a field that already took a value from an earlier key is not parsed again", ok,
+                          construct="per-key strategy overwrites an already provided field",
+                          message=f"{f.qualname}: `{unparse(c)[:50]}` can run for a field that already took a value from an "
+                                  f"earlier key (when alias conflicts are ignored): the last spelling in input order wins, "
+                                  f"while the per-field strategy takes the first spelling in the field's alias order",
+                          necessity="a: int = Field(alias_from=['a1', 'a2']) given {'a1': 1, 'a2': 2} under "
+                                    "Options(ignore_alias_conflicts=True): {'a': 2} data-first, {'a': 1} field-first",
+                          node=c)
+        # (ii) case-folding pre-pass
+        for n in fa.cfg.nodes:
+            if n.kind == "stmt" and isinstance(n.ast, ast.Assign) and isinstance(n.ast.targets[0], ast.Subscript) \
+                    and isinstance(n.ast.targets[0].value, ast.Name) and ".lower()" in unparse(n.ast.targets[0].slice):
+                tgt = n.ast.targets[0].value.id
+                guarded = any(isinstance(a, ast.Compare) and isinstance(a.ops[0], (ast.In, ast.NotIn))
+                              and unparse(a.comparators[0]) == tgt for a, p in fa.facts.atoms_at(n))
+                checked = any(isinstance(x, ast.Compare) and isinstance(x.ops[0], (ast.In, ast.NotIn))
+                              and unparse(x.comparators[0]) == tgt
+                              for m in fa.cfg.nodes if m.kind == "test" and fa.cfg.can_reach(m, n, kinds=(N,))
+                              for x in ast.walk(m.ast))
+                run.check("R06j", f, f"folding a key onto `{tgt}` detects a key that is already there", guarded or checked,
+                          construct="case folding overwrites a colliding key",
+                          message=f"{f.qualname}: `{norm_stmt(n.ast)}` folds case-insensitive keys without testing whether the "
+                                  f"folded key is already present: the later spelling silently replaces the earlier one",
+                          necessity="a case-insensitive field given {'A': 1, 'a': 2}: AliasConflictError data-first, "
+                                    "{'a': 2} field-first", node=n.ast)
+
+
 NORMALISERS = ("lower", "casefold", "upper")
 
 
@@ -625,7 +675,7 @@ def r06e(run):
 
 
 def check(run):
-    run.rules_run += ["R06a", "R06b", "R06c", "R06d", "R06e", "R06f", "R06g", "R06h", "R06i"]
+    run.rules_run += ["R06a", "R06b", "R06c", "R06d", "R06e", "R06f", "R06g", "R06h", "R06i", "R06j"]
     run.explain("C06: the two lookup strategies are discovered as the callees of the strategy conditional in "
                 "parse_data. (R06a) for each action (raise AbsenceError / AliasConflictError / DependenciesAbsenceError, "
                 "parse a field, store parsed, store default for a missing / a no-input field, store an extra key, collect "
@@ -643,4 +693,5 @@ def check(run):
     r06g(run, A, B)
     r06h(run)
     r06i(run, A, B)
+    r06j(run, A, B)
     r06e(run)
